@@ -16,6 +16,7 @@ import (
 type Denoter struct {
 	NameMap map[string]string
 	memo    map[memoKey]*rh.Value
+	memoLen map[*rh.Value]int
 	classes map[reflect.Type]*rh.Class
 	depth   int
 }
@@ -27,7 +28,7 @@ type memoKey struct {
 
 // NewDenoter builds a denoter for a name map (nil = no names registered).
 func NewDenoter(nameMap map[string]string) *Denoter {
-	return &Denoter{NameMap: nameMap, memo: map[memoKey]*rh.Value{}, classes: map[reflect.Type]*rh.Class{}}
+	return &Denoter{NameMap: nameMap, memo: map[memoKey]*rh.Value{}, memoLen: map[*rh.Value]int{}, classes: map[reflect.Type]*rh.Class{}}
 }
 
 // LowerFirst lower-cases the first ASCII letter.
@@ -139,12 +140,15 @@ func (d *Denoter) val(v reflect.Value) *rh.Value {
 			}
 		}
 		if v.Kind() == reflect.Slice && v.Len() > 0 {
+			// same backing array, same length, same type = the same slice header (the length is remembered
+			// separately: the node may still be under construction when a cycle leads back to it)
 			k := memoKey{unsafe.Pointer(v.Pointer()), v.Type()}
-			if m, ok := d.memo[k]; ok && len(m.Elems) == v.Len() {
+			if m, ok := d.memo[k]; ok && d.memoLen[m] == v.Len() {
 				return m
 			}
 			l := d.listHeader(v.Type())
 			d.memo[k] = l
+			d.memoLen[l] = v.Len()
 			for i := 0; i < v.Len(); i++ {
 				l.Elems = append(l.Elems, d.val(v.Index(i)))
 			}
